@@ -406,6 +406,28 @@ class Analyzer:
                 base += "[??]"
         return base
 
+    def const_slice_len(self, fn, op, depth=0):
+        """Number of elements when the operand is (a reference to) an array of constant length, possibly unsized into a slice."""
+        import re
+        if op.get("k") not in ("copy", "move") or depth > 6:
+            m = re.search(r"\[[^;\[\]]+; (\d+)\]", op.get("ty", "") or "") if op.get("k") == "const" else None
+            return int(m.group(1)) if m else None
+        pl = op["pl"]
+        if any(x != "deref" for x in pl.get("p", [])):
+            return None
+        m = re.match(r"^&?(?:mut )?\[[^;\[\]]+; (\d+)\]$", fn.local_ty(pl["l"]))
+        if m:
+            return int(m.group(1))
+        one = df.defs_of(fn).single(pl["l"])
+        if one is None or one[0] != "stmt":
+            return None
+        rv = one[3]["rv"]
+        if rv["k"] == "cast" and "Unsize" in rv["ck"] or rv["k"] == "use":
+            return self.const_slice_len(fn, rv["op"], depth + 1)
+        if rv["k"] == "ref":
+            return self.const_slice_len(fn, {"k": "copy", "pl": rv["pl"]}, depth + 1)
+        return None
+
     def is_int_ty(self, ty):
         return ty in INT_RANGES
 
@@ -818,6 +840,11 @@ class Analyzer:
                 post.append(("condf", [(x, Z, r[1]), (Z, x, -r[0])], [], A[1]))
         elif name_is("<impl [T]>::strip_prefix", "<impl [T]>::strip_suffix") and A[0]:
             post.append(("optf", "Some", [(("#", D + ".@Some.0"), ("#", A[0]), 0)], A[0]))
+        elif name_is("<impl [T]>::starts_with", "<impl [T]>::ends_with") and nargs == 2 and A[0]:
+            # a slice that starts / ends with an n-element needle has at least n elements
+            n = self.const_slice_len(fn, t["args"][1])
+            if n:
+                post.append(("condf", [(Z, ("#", A[0]), -n)], [], A[0]))
         elif (q.endswith("PartialEq>::eq") or q.endswith("PartialEq::eq") or rp.endswith("::eq")) and nargs == 2 and A[0] and A[1] and \
                 "Option<" in (t["argtys"][0] or ""):
             fa, fb = st.optf.get((A[0], "Some")), st.optf.get((A[1], "Some"))
